@@ -236,6 +236,11 @@ for _wk in ('const', 'array'):
             recipe('PointwiseNorm/pspace-%s/opweight-%s/p=%d' % (_wk, _own, _p), [TENS + 'PointwiseNorm'], deriv=True,
                    heavy=(_p == 2 and _own in ('default', 'array')))(
                 lambda ctx, _wk=_wk, _ow=_ow, _p=_p: odl.PointwiseNorm(_wvf(_wk), exponent=_p, weighting=_ow))
+# vector fields with a single component (the norm is a weighted absolute value)
+for _ow, _own in ((None, 'default'), (4.0, 'const'), ([3.0], 'array')):
+    for _p in (2, 1):
+        recipe('PointwiseNorm/1-component/opweight-%s/p=%d' % (_own, _p), [TENS + 'PointwiseNorm'], deriv=True)(
+            lambda ctx, _ow=_ow, _p=_p: odl.PointwiseNorm(odl.ProductSpace(D3(), 1), exponent=_p, weighting=_ow))
 recipe('PointwiseInner/cn', [TENS + 'PointwiseInner'], linear=True, deriv=True, cplx=True)(
     lambda ctx: odl.PointwiseInner(_vf(C2()), ctx.element(_vf(C2()), 'm')))
 recipe('PointwiseInner/pspace-weighted', [TENS + 'PointwiseInner'], linear=True, deriv=True)(
@@ -392,6 +397,21 @@ recipe('Gradient/central/symmetric', [DIFF + 'Gradient'], linear=True, deriv=Tru
     lambda ctx: odl.Gradient(D23(), method='central', pad_mode='symmetric'))
 recipe('Gradient/affine', [DIFF + 'Gradient'], deriv=True)(
     lambda ctx: odl.Gradient(D3(), pad_const=ctx.real('c', nonzero=True)))
+# affine variants (constant padding with a non-zero constant) for every method: the derivative is the zero-padding
+# operator OF THE SAME METHOD
+for _m in ('forward', 'backward', 'central'):
+    recipe('Gradient/affine/' + _m, [DIFF + 'Gradient'], deriv=True)(
+        lambda ctx, _m=_m: odl.Gradient(D3(), method=_m, pad_mode='constant', pad_const=ctx.real('c', nonzero=True)))
+    recipe('Gradient/affine/2d/' + _m, [DIFF + 'Gradient'], deriv=True, heavy=(_m == 'forward'))(
+        lambda ctx, _m=_m: odl.Gradient(D23(), method=_m, pad_mode='constant', pad_const=ctx.real('c', nonzero=True)))
+    recipe('PartialDerivative/affine/' + _m, [DIFF + 'PartialDerivative'], deriv=True)(
+        lambda ctx, _m=_m: odl.PartialDerivative(D23(), axis=1, method=_m, pad_mode='constant',
+                                                 pad_const=ctx.real('c', nonzero=True)))
+    recipe('Divergence/affine/' + _m, [DIFF + 'Divergence'], deriv=True)(
+        lambda ctx, _m=_m: odl.Divergence(range=D3(), method=_m, pad_mode='constant',
+                                          pad_const=ctx.real('c', nonzero=True)))
+recipe('Laplacian/affine', [DIFF + 'Laplacian'], deriv=True)(
+    lambda ctx: odl.Laplacian(D3(), pad_mode='constant', pad_const=ctx.real('c', nonzero=True)))
 recipe('Divergence/forward', [DIFF + 'Divergence'], linear=True, deriv=True)(lambda ctx: odl.Divergence(range=D23()))
 recipe('Divergence/backward/periodic', [DIFF + 'Divergence'], linear=True, deriv=True)(
     lambda ctx: odl.Divergence(range=D23(), method='backward', pad_mode='periodic'))
